@@ -7,7 +7,7 @@ rows = []
 for rp in sorted(glob.glob(os.path.join(ROOT, "build", "seedres", "C*-*.json"))):
     tag = os.path.basename(rp)[:-5]
     prop, n = tag.split("-")
-    src = "/tmp/mut-%s/seeds/%s" % (prop, n)
+    src = "/tmp/mut-%s/seeds/%s" % (prop, n) if int(n) <= 3 else "/tmp/mut2-%s/seeds/%d" % (prop, int(n) - 3)
     r = json.load(open(rp))
     confirmed = all(r.get(k) for k in ("demo_passes_pristine", "patch_applies", "builds", "suite_passes", "demo_fails_with_change"))
     dst = os.path.join(ROOT, "seeded", tag)
